@@ -21,10 +21,12 @@ pub async fn read_saved_target_env_state(target: &TargetMetadata) -> Option<Targ
         let file_path = file_path.clone();
 
         task::spawn_blocking(move || {
-            let file = std::fs::File::open(&file_path).with_context(|| {
+            // Deserialize from a buffer, not from the file: a corrupted length prefix is then bounded by
+            // the bytes actually present instead of being allocated up front.
+            let bytes = std::fs::read(&file_path).with_context(|| {
                 format!("Failed to open checksums file {}", &file_path.display())
             })?;
-            bincode::deserialize_from(file)
+            bincode::deserialize(&bytes)
                 .with_context(|| format!("Failed to deserialize checksums for {}", target_id))
         })
         .await
